@@ -18,7 +18,7 @@ import (
 func init() {
 	core.Register(&core.Prop{
 		ID: "C14",
-		Rule: "case = one simple open line string (monotone, incrementally built simple walk, spiral, axis-parallel, 2-vertex; one case in seven puts all 2-3 vertices inside one star-shaped hole, each out in a different arm of it) or multi-line string of 2-3 mutually disjoint members, and one valid polygonal clip shape from the C01 generators (star with 0-3 holes, comb, staircase, multi-polygon, box; presented as Polygon, MultiPolygon or *Bounds), in general position (no line vertex within 1e-7 d of the boundary, no polygon vertex within 1e-7 d of the line); " +
+		Rule: "case = one simple open line string (monotone, incrementally built simple walk, spiral, axis-parallel, 2-vertex; one case in seven puts all 2-3 vertices inside one star-shaped hole, each out in a different arm of it) or multi-line string of 2-3 members that are mutually disjoint or (one case in ten) touch at their end points only - an open chain cut in two, or two arcs closing a loop -, and one valid polygonal clip shape from the C01 generators (star with 0-3 holes, comb, staircase, multi-polygon, box; presented as Polygon, MultiPolygon or *Bounds), in general position (no line vertex within 1e-7 d of the boundary, no polygon vertex within 1e-7 d of the line); " +
 			"oracle = harness reference clipping (exact crossing tests, intersection parameters, exact midpoint membership per sub-interval): inside length L*, emptiness, and for every returned vertex distance to the line and membership in / distance to the polygon; " +
 			"an evaluation is one Clip call judged; non-trivial = line that crosses the polygon boundary at least twice with 0 < L* < length; distinct by input hash",
 		Assumptions: []string{"general position enforced by the harness", "tolerances 1e-9 relative (length) and 1e-9 x diameter (vertex positions)"},
@@ -31,7 +31,7 @@ func init() {
 		Run: run,
 		Floors: func(t string) map[string]int64 {
 			return map[string]int64{"cfg.entirely_inside": 100, "cfg.entirely_outside_bbox_overlap": 100, "cfg.entirely_outside_bbox_disjoint": 100, "cfg.crosses_hole": 100, "cfg.enters_several_times": 200, "cfg.two_vertex_line": 100,
-				"recv.MultiLineString": 300, "arg.*Bounds": 100, "arg.MultiPolygon": 300, "arg.Polygon": 300, "result.vertices_checked": 5000, "line.long": 100, "line.axis_parallel": 500, "line.all_vertices_in_one_hole": 300, "line.vertices_around_one_hole": 300, "line.long_approach>=511": 150, "storage.paths_share_one_backing_array": 500}
+				"recv.MultiLineString": 300, "arg.*Bounds": 100, "arg.MultiPolygon": 300, "arg.Polygon": 300, "result.vertices_checked": 5000, "line.long": 100, "line.axis_parallel": 500, "line.all_vertices_in_one_hole": 300, "line.vertices_around_one_hole": 300, "line.long_approach>=511": 150, "line.members_close_a_loop": 100, "line.members_share_an_end_point": 100, "storage.paths_share_one_backing_array": 500}
 		},
 	})
 }
@@ -163,7 +163,7 @@ func run(c *core.Ctx, idx int) {
 	r := c.R
 	scale := math.Pow(10, r.Range(-2, 3))
 	ox, oy := r.Range(-5, 5)*scale, r.Range(-5, 5)*scale
-	cfgHint := r.Intn(9)
+	cfgHint := r.Intn(10)
 	kind := polyKinds[r.Intn(len(polyKinds))]
 	if cfgHint == 6 {
 		kind = "starholes" // every line vertex inside one (concave) hole, in different arms of it
@@ -232,6 +232,41 @@ func run(c *core.Ctx, idx int) {
 		lines = append(lines, l)
 		nl = 0
 		c.Count("line.vertices_around_one_hole")
+	}
+	touching := false
+	if cfgHint == 9 {
+		// members that touch at their end points only (still a simple multi-line string): an open
+		// chain cut into two members at a vertex, or two arcs from A to B that together close a loop
+		cx, cy := op.Cx+r.Range(-0.3, 0.3)*scale, op.Cy+r.Range(-0.3, 0.3)*scale
+		ra, rb := scale*r.Range(0.2, 1.3), scale*r.Range(0.2, 1.3)
+		arc := func(a0, a1 float64, n int) []geom.Point {
+			var l []geom.Point
+			for i := 0; i <= n; i++ {
+				a := a0 + (a1-a0)*float64(i)/float64(n)
+				k := 1.0
+				if i > 0 && i < n {
+					k = r.Range(0.85, 1.15)
+				}
+				l = append(l, geom.Point{X: cx + k*ra*math.Cos(a), Y: cy + k*rb*math.Sin(a)})
+			}
+			return l
+		}
+		th := r.Range(0, 2*math.Pi)
+		upper := arc(th, th+math.Pi, r.IntRange(2, 6))
+		lower := arc(th+2*math.Pi, th+math.Pi, r.IntRange(2, 6)) // from the same start to the same end, the other way round
+		lower[0], lower[len(lower)-1] = upper[0], upper[len(upper)-1]
+		if r.Bool() {
+			lines = append(lines, upper, lower) // closed loop
+			c.Count("line.members_close_a_loop")
+		} else {
+			k := r.IntRange(1, len(upper)-1)
+			whole := append(append([]geom.Point{}, upper...), lower[len(lower)-2])
+			_ = whole
+			lines = append(lines, append([]geom.Point{}, upper[:k+1]...), append([]geom.Point{}, upper[k:]...)) // open chain in two members
+			c.Count("line.members_share_an_end_point")
+		}
+		nl = 0
+		touching = true
 	}
 	if cfgHint == 8 {
 		// a long approach: hundreds to thousands of vertices far outside the polygon's bounding
@@ -316,7 +351,7 @@ func run(c *core.Ctx, idx int) {
 			c.Count("rejected.not_simple")
 			return
 		}
-		for j := i + 1; j < len(lines); j++ {
+		for j := i + 1; j < len(lines) && !touching; j++ {
 			for a := 0; a+1 < len(l); a++ {
 				for b := 0; b+1 < len(lines[j]); b++ {
 					if exact.Segments(gen.EP(l[a]), gen.EP(l[a+1]), gen.EP(lines[j][b]), gen.EP(lines[j][b+1])) != exact.Disjoint {
